@@ -5,9 +5,9 @@ cd "$(dirname "$0")/.."
 N="${1:-2000}"
 bin=sim/target/release/simcheck
 fail=0
-for spec in "chan-inline C06" "chan-threads C08" "fsim-faults C10" "fsim-rolling C11" "ctx-frames C03" "ctx-spans-tree C04" "ctx-spans-completion C05" "ctx-spans-traceparent C18" "otlp-delivery C12" "otlp-routing C14" "file-e2e C07" "calling-contexts C08" "fsim-realfs C11"; do
+for spec in "chan-inline C06" "chan-threads C08" "fsim-faults C10" "fsim-rolling C11" "ctx-frames C03" "ctx-spans-tree C04" "ctx-spans-completion C05" "ctx-spans-traceparent C18" "otlp-delivery C12" "otlp-routing C14" "file-e2e C07" "calling-contexts C08" "fsim-realfs C11" "tokio-receiver C07"; do
   set -- $spec
-  n=$N; [ "$1" = "fsim-faults" ] && n=$((N/20))
+  n=$N; [ "$1" = "fsim-faults" ] && n=$((N/20)); [ "$1" = "tokio-receiver" ] && n=$((N/10))
   a=$(VERIF_THREADS=1 $bin hashes $1 $2 $n | md5sum)
   b=$(VERIF_THREADS=7 $bin hashes $1 $2 $n | md5sum)
   c=$(VERIF_THREADS=16 VERIF_SEED=1 $bin hashes $1 $2 $n | md5sum)
